@@ -64,9 +64,11 @@ structure ResiE where
   num : Nat
 deriving Repr, DecidableEq
 
+/-- `cache` is `Atoms._atomsdict` (its keys): `[]` = empty dict = "rebuild on the next look-up" -/
 structure File where
   atoms : List AtomE
   resis : List ResiE
+  cache : List Str := []
 deriving Repr
 
 /-- a restraint: `spline[0]` as written, and the non-numeric tokens (`Restraint.atoms`) -/
@@ -117,11 +119,14 @@ def kwNumbers (f : File) (kw cls : Str) : Except PyErr (List Nat) :=
 /-- key of `Atoms.atomsdict`: `atom.fullname.upper()` -/
 def atomKey (a : AtomE) : Str := upper (a.name ++ '_' :: natStr a.resi)
 
+/-- keys of `Atoms.atomsdict`: `if not self._atomsdict: self._atomsdict = dict(...)`; `return self._atomsdict` -/
+def index (f : File) : List Str := if f.cache = [] then f.atoms.map atomKey else f.cache
+
 /-- truthiness of `Atoms.get_atom_by_name(name)` -/
 def getAtomByName (f : File) (name : Str) : Bool :=
-  if '_' ∈ name then (f.atoms.map atomKey).contains (upper name)
+  if '_' ∈ name then (index f).contains (upper name)
   else if name = ['>'] ∨ name = ['<'] then false
-  else (f.atoms.map atomKey).contains (upper (name ++ ['_', '0']))
+  else (index f).contains (upper (name ++ ['_', '0']))
 
 /-- `Shelxfile.does_atom_exist(atom_name, bad_atoms, restraint_atom)`: what it appends to `bad_atoms` -/
 def doesAtomExist (f : File) (atomName report : Str) : List Str :=
@@ -252,6 +257,9 @@ def missing (f : File) (r : Restr) : List (Str × Nat) :=
 def wfFile (f : File) : Bool :=
   (f.atoms.all fun a => !(a.name.contains '_')) && (f.resis.all fun r => r.num > 0 && r.cls != [])
 
+/-- the cached name index is empty or agrees with the atom list (what every edit of the atom list has to keep) -/
+def coherent (f : File) : Bool := f.cache == [] || f.cache == f.atoms.map atomKey
+
 /-- the keyword has no `$` and at most one `_`; what follows is `*`, a number or a class name (starts with a letter) -/
 def wfKw (kw : Str) : Bool :=
   !(kw.contains '$') &&
@@ -268,9 +276,44 @@ def wfTok (tok : Str) : Bool :=
    | some s => !(s.contains '_') && (s == ['*'] || (isDigitStr s && natStr (toNat s) == s)))
 
 def WellFormed (f : File) (r : Restr) : Prop :=
-  wfFile f = true ∧ wfKw r.kw = true ∧ ∀ t ∈ r.atoms, wfTok t = true
+  (wfFile f = true ∧ coherent f = true) ∧ wfKw r.kw = true ∧ ∀ t ∈ r.atoms, wfTok t = true
 
 instance (f : File) (r : Restr) : Decidable (WellFormed f r) := by unfold WellFormed; infer_instance
+
+/-! ## histories: edits of the atom list between two evaluations of the diagnostics
+
+  atoms.py  Atoms.__delitem__ (`del shx.atoms[atomid]`), atom.py Atom.delete, Atom.name setter, shelx.py add_atom: each
+  changes `all_atoms` and empties `_atomsdict`. Assigning `atom.resi = RESI(...)` (there is no API to move an atom to
+  another residue) changes `Atom.resinum` and leaves `_atomsdict` alone. -/
+
+inductive Op
+  | delItem (i : Nat)                 -- del shx.atoms[shx.atoms.all_atoms[i].atomid]
+  | delete (i : Nat)                  -- shx.atoms.all_atoms[i].delete()
+  | rename (i : Nat) (name : Str)     -- shx.atoms.all_atoms[i].name = name
+  | add (name : Str)                  -- shx.add_atom(name=name, ...): a new atom in residue 0
+  | setResi (i : Nat) (n : Nat)       -- shx.atoms.all_atoms[i].resi = RESI(shx, ['RESI', str(n)])   (plain attribute)
+  | check                             -- _assign_atoms_to_restraints(): the look-ups build the cache
+deriving Repr, DecidableEq
+
+/-- `Atom.name` setter refuses `X_12` ("Illegal atom name") -/
+def illegalName (nm : Str) : Bool := decide ('_' ∈ nm) && isDigitStr (lastPart (splitOn '_' nm))
+
+def step (f : File) : Op → File
+  | .delItem i => { f with atoms := f.atoms.eraseIdx i, cache := [] }
+  | .delete i => { f with atoms := f.atoms.eraseIdx i, cache := [] }
+  | .rename i nm =>
+    if illegalName nm then f
+    else { f with atoms := f.atoms.modify i (fun a => { a with name := nm }), cache := [] }
+  | .add nm => { f with atoms := f.atoms ++ [{ name := nm, resi := 0 }], cache := [] }
+  | .setResi i n => { f with atoms := f.atoms.modify i (fun a => { a with resi := n }) }
+  | .check => { f with cache := index f }
+
+def run (f : File) (ops : List Op) : File := ops.foldl step f
+
+/-- the edit empties the cached index (every op of the API does; the attribute assignment does not) -/
+def Op.keepsIndex : Op → Bool
+  | .setResi _ _ => false
+  | _ => true
 
 /-! ## Legacy: the code before fixes/C17_1..4 (kept for the `decide` witnesses) -/
 namespace Legacy
